@@ -67,8 +67,7 @@ class Ctx:
 
     def audit(self, module, namespace, expected):
         """axioms of every expected theorem (names relative to `namespace` unless they contain a dot)"""
-        full = [(n if "." in n else namespace + "." + n) for n in expected]
-        full = [(n if n.startswith("Arp.") else "Arp." + n) for n in full]
+        full = [(n if n.startswith("Arp.") else (("Arp." + n) if "." in n else namespace + "." + n)) for n in expected]
         p = subprocess.run(["lake", "env", "lean", "--run", "Audit.lean", module] + full,
                            cwd=run.LEAN, capture_output=True, text=True)
         found = {}
@@ -129,7 +128,8 @@ class Ctx:
             if m == "bad-op" or im_c == "bad-op":
                 self.broken.append({"what": "protocol error", "line": ln, "impl": im, "model": mo})
                 continue
-            if im_c != m:
+            if im_c != m and not (im_c == "HANG" and m == "FUEL"):
+                # (a loop the model cannot finish within its fuel corresponds to a hang of the code)
                 st["disagree"] += 1
                 self.disagreements.append(Failure("disagree", name, ln, im, m, sp))
             # oracle
